@@ -16,6 +16,8 @@ Record case := {
   c_ep : endpoint;
   c_required : bool;
   c_ups : list upstream;
+  c_resps2 : list response;      (* what the upstreams send during the second call ([] = unchanged) *)
+  c_check_run : bool;            (* run B was performed *)
   (* run A: one FailoverGroup call on a fresh group *)
   o_ok : bool;
   o_answer_idx : Z;              (* upstream whose URI the result names, -1 = none *)
@@ -65,7 +67,7 @@ Definition check_second (c : case) : option string :=
   | None => None
   | Some o =>
       let r1 := failover (c_ep c) (c_ups c) in
-      let r := failover (c_ep c) (fo_state r1) in
+      let r := failover (c_ep c) (set_resps (fo_state r1) (c_resps2 c)) in
       if negb (list_eqb Z.eqb (zs (fo_contacts r)) (s_client o)) then Some "second-call-contact-counts"
       else
         match fo_outcome r with
@@ -95,6 +97,7 @@ Definition check_first (c : case) : option string :=
         if negb (o_ok c) then Some "model-answers-impl-fails"
         else if negb (Z.eqb (Z.of_nat i) (o_answer_idx c)) then Some "answering-upstream"
         else if negb (String.eqb m (o_marker c)) then Some "answer-changed"
+        else if negb (c_check_run c) then None
         else if negb (list_eqb String.eqb (unable_of (o_problems c)) []) then Some "problem-although-answered"
         else if negb (later_untouched i 0 (o_client_check c)) then Some "check-contacts-later-upstream"
         else None
@@ -104,6 +107,7 @@ Definition check_first (c : case) : option string :=
         else if negb (String.eqb (err_kind e) (o_err_kind c)) then Some "error-kind"
         else if negb (Bool.eqb (is_unavailable e) (o_unavailable c)) then Some "unavailable-flag"
         else if negb (Bool.eqb (c_required c) (o_strict c)) then Some "strict-flag"
+        else if negb (c_check_run c) then None
         else if negb (list_eqb String.eqb (unable_of (o_problems c)) (check_unable (c_ep c) (c_required c) (fo_outcome r))) then Some "problem-severity"
         else if negb (later_untouched i 0 (o_client_check c)) then Some "check-contacts-later-upstream"
         else None
